@@ -46,6 +46,13 @@ TEXT = {
         "design_ref": "DESIGN.md §5 C10", "note": RX_NOTE + " Same server model as C08; stream items always ready (stream::iter).",
         "technique": "Lean 4 proof (same global invariant, stream bookkeeping `out ++ pending = reference`); model-vs-implementation correspondence run",
     },
+    "C18": {
+        "level": "Machine-checked: SelectAll returns the ready index of minimal rotation distance; the server's get_next_call is exactly that scan over `receive would complete now`; for every sequence of consecutive scans over an unchanged set, "
+                 "starting right after A was served, if B is ready at every scan and not served then A is not served again (no double service); a ready connection is served within n-1 other calls per phase, hence within connections x (transitions+1) across renumberings. "
+                 "Differential run incl. flooder schedules where everything is buffered up front, with a direct fairness oracle on the real server's service order.",
+        "design_ref": "DESIGN.md §5 C18", "note": RX_NOTE + " Rotation: Zlink/Model/Select.lean mirrors select_all.rs; tie of whole server runs to scan sequences is by correspondence of the global service order.",
+        "technique": "Lean 4 proof (rotation-distance potential argument) on hand-written models; model-vs-implementation correspondence of the global service order plus a fairness oracle",
+    },
     "C17": {
         "level": "Machine-checked theorems parametric in growth step and limit: buffer capacity never exceeds the limit (inbound: every event sequence; outbound: every operation); a lone frame is "
                  "delivered iff its wire size is below the limit, for every growth step and read-size schedule, otherwise overflow with exactly `max` bytes buffered; an outbound message is accepted iff "
